@@ -110,6 +110,15 @@ type c27Case struct {
 	Thorough bool       `json:"thorough"`
 	History  [][2]string `json:"history"` // puts (hex key, hex value) that rebuild the state
 	Event    c27Event   `json:"event"`
+	Persist  *c27Persist `json:"persist,omitempty"` // persistence pass (directory-backed Pebble)
+}
+
+// c27Persist: history, then E1, [reopen], then E2, then reopen — a Close + open of the
+// same directory must never change the observable content.
+type c27Persist struct {
+	E1  c27Event `json:"e1"`
+	E2  c27Event `json:"e2"`
+	Mid bool     `json:"mid"` // also reopen between E1 and E2
 }
 
 func c27hx(s string) string { return vlib.Hex([]byte(s)) }
@@ -230,6 +239,120 @@ func c27PebbleDir(r *vlib.Run) c27Provider {
 		}
 		return db, func() { os.RemoveAll(dir) }, nil
 	}}
+}
+
+// ---------- persistence pass (directory-backed Pebble) ----------
+
+// c27RunPersist: fresh directory, replay the put history, E1 (a further write of key k,
+// so that k has been written at least twice when it was in the state), optional reopen,
+// E2 (delete / overwrite of k, directly or through a committed batch), reopen. The
+// reference is unchanged by a reopen; the full content is compared before and after it.
+func c27RunPersist(r *vlib.Run, c c27Case) {
+	r.Transition()
+	r.Eval()
+	dir := filepath.Join(c27TmpRoot(r), fmt.Sprintf("persist-%d", c27TmpSeq))
+	c27TmpSeq++
+	os.RemoveAll(dir)
+	if err := os.MkdirAll(dir, 0o755); err != nil {
+		r.T.Fatalf("harness: %v", err)
+	}
+	defer os.RemoveAll(dir)
+	const prov = "pebble-dir"
+	o := &c27Obs{}
+	var db database.Database
+	open := func() bool {
+		d, err := pebbledb.NewDatabase(dir, false)
+		if err != nil {
+			o.add(prov+".open", "unexpected-error", "", "open %s: %v", dir, err)
+			return false
+		}
+		db = d
+		return true
+	}
+	reopen := func(ref c27Ref, after string) bool {
+		if err := db.Close(); err != nil {
+			o.add(prov+".Close", "unexpected-error", "", "Close: %v", err)
+			return false
+		}
+		if !open() {
+			return false
+		}
+		if d := c27Observe(db, prov, ref, o); d != "" && !c27AlreadyReported(d) {
+			o.add(prov+".reopen", "content-changed-by-reopen", "after="+after,
+				"history %s, then %s, then %s, then Close + open of the same directory: %s", c27HistString(c.History), c27EvString(c.Persist.E1), c27EvString(c.Persist.E2), d)
+		}
+		return true
+	}
+	panicked, msg, site := vlib.Guard(func() {
+		if !open() {
+			return
+		}
+		defer func() { db.Close() }()
+		ref := c27Ref{}
+		for _, kv := range c.History {
+			k, v := c27un(kv[0]), c27un(kv[1])
+			if err := db.Put([]byte(k), []byte(v)); err != nil {
+				o.add(prov+".Put", "unexpected-error", "", "rebuild Put(%q,%q): %v", k, v, err)
+				return
+			}
+			ref[k] = v
+		}
+		c27RunOn(db, prov, ref, c.Persist.E1, true, o)
+		ref = c27RefApply(ref, c.Persist.E1)
+		if c.Persist.Mid && !reopen(ref, "write") {
+			return
+		}
+		cls := c27RunOn(db, prov, ref, c.Persist.E2, true, o)
+		ref = c27RefApply(ref, c.Persist.E2)
+		what := c.Persist.E2.Kind
+		if what == "batch" && len(c.Persist.E2.Ops) > 0 && c.Persist.E2.Ops[0].Del {
+			what = "batch-delete"
+		}
+		reopen(ref, what)
+		r.Class(fmt.Sprintf("pebble-dir persist mid=%v %s", c.Persist.Mid, cls))
+	})
+	if panicked {
+		r.Violation(site, "go-panic", "pebble-dir;persist", msg, c)
+	}
+	for _, f := range o.fails {
+		r.Violation(f.site, f.kind, f.key, f.detail, c)
+	}
+}
+
+func c27HistString(h [][2]string) string {
+	var p []string
+	for _, kv := range h {
+		p = append(p, fmt.Sprintf("put(%q,%q)", c27un(kv[0]), c27un(kv[1])))
+	}
+	return "[" + strings.Join(p, ",") + "]"
+}
+
+// c27PersistCases: for one state, every key k: E1 in {put(k,""), put(k,"x"), committed
+// batch put(k,"x")} x E2 in {delete(k), committed batch delete(k), put(k,"")} x reopen at
+// the end / in the middle and at the end.
+func c27PersistCases(hist [][2]string, thorough bool) []c27Case {
+	var out []c27Case
+	for _, k := range c27Keys {
+		hk := c27hx(k)
+		e1s := []c27Event{
+			{Kind: "put", K: hk, V: c27hx("")},
+			{Kind: "put", K: hk, V: c27hx("x")},
+			{Kind: "batch", Ops: []c27Op{{K: hk, V: c27hx("x")}}, End: "commit"},
+		}
+		e2s := []c27Event{
+			{Kind: "del", K: hk},
+			{Kind: "batch", Ops: []c27Op{{Del: true, K: hk}}, End: "commit"},
+			{Kind: "put", K: hk, V: c27hx("")},
+		}
+		for _, e1 := range e1s {
+			for _, e2 := range e2s {
+				for _, mid := range []bool{false, true} {
+					out = append(out, c27Case{Provider: "pebble-dir", Thorough: thorough, History: hist, Persist: &c27Persist{E1: e1, E2: e2, Mid: mid}})
+				}
+			}
+		}
+	}
+	return out
 }
 
 // ---------- running one case ----------
@@ -790,6 +913,11 @@ func TestVerif_C27(t *testing.T) {
 	var rc c27Case
 	if r.IsReplay(&rc) {
 		c27SetUniverse(rc.Thorough)
+		if rc.Persist != nil {
+			c27RunPersist(r, rc)
+			os.RemoveAll(c27TmpRoot(r))
+			return
+		}
 		for _, p := range c27Providers(r) {
 			if p.name == rc.Provider {
 				c27RunCase(r, p, rc)
@@ -877,6 +1005,24 @@ func TestVerif_C27(t *testing.T) {
 			c27Millis["pebble-dir-sequential"] += float64(time.Since(t0).Microseconds()) / 1000
 		}
 	}
+	// persistence pass: every state with at most 1 (quick) / 3 (thorough) keys present
+	// (a reopen costs ~50 ms; the keys not touched by E1/E2 only have to survive)
+	t0 := time.Now()
+	maxPresent := vlib.Pick(r, 1, 3)
+	for si, s := range states {
+		if len(s.ref) > maxPresent {
+			continue
+		}
+		if !r.Mine(uint64(si)) || r.Expired() {
+			continue
+		}
+		for _, c := range c27PersistCases(s.hist, r.Thorough()) {
+			r.Space(1)
+			c27RunPersist(r, c)
+			r.Trace()
+		}
+	}
+	c27Millis["pebble-dir-persist"] += float64(time.Since(t0).Microseconds()) / 1000
 	os.RemoveAll(c27TmpRoot(r))
 	_ = bytes.Equal
 	for k, v := range c27Millis {
